@@ -5,6 +5,7 @@
 #include "nmtools/utility/at.hpp"
 #include "nmtools/utility/shape.hpp"
 #include "nmtools/utl.hpp"
+#include "nmtools/array/ndarray/hybrid.hpp"
 #include <array>
 #include <tuple>
 #include <utility>
@@ -27,6 +28,12 @@ __attribute__((always_inline)) inline void for_(F&& f)
 
 // fixed-rank container kinds (DESIGN §2 "fixed kinds")
 struct k_std {}; struct k_utl {}; struct k_tup {}; struct k_utup {}; struct k_carr{};
+// bounded run-time-length kind: utl::static_vector<T,8> with ASSUME(len == R).  meta::len_v of it is 0, so the library takes
+// the SAME run-time-loop branches (`for (i=0; i<len(shape); i++)`) that std::vector / dynamic shapes take.
+struct k_sv {};
+// the same with `int` elements: results are then bounded containers of int whose element stores cannot alias their
+// (size_t) length field for TBAA, which lets LLVM unroll loops over len(result)
+struct k_svi {};
 template <class K, class T, size_t R> struct mk;
 template <class T, size_t R> struct mk<k_std,T,R>  { using type = std::array<T,R>; };
 template <class T, size_t R> struct mk<k_utl,T,R>  { using type = nmtools::utl::array<T,R>; };
@@ -38,7 +45,12 @@ template <class T, size_t... Is> struct mk_tup<T,std::index_sequence<Is...>> {
 };
 template <class T, size_t R> struct mk<k_tup,T,R>  { using type = typename mk_tup<T,std::make_index_sequence<R>>::std_t; };
 template <class T, size_t R> struct mk<k_utup,T,R> { using type = typename mk_tup<T,std::make_index_sequence<R>>::utl_t; };
+template <class T, size_t R> struct mk<k_sv,T,R>   { using type = nmtools::utl::static_vector<T,8>; };
+template <class T, size_t R> struct mk<k_svi,T,R>  { using type = nmtools::utl::static_vector<int,8>; };
 template <class K, class T, size_t R> using mk_t = typename mk<K,T,R>::type;
+// length precondition of a symbolic container: nothing to assume for fixed kinds
+template <size_t R, class X> __attribute__((always_inline)) inline void assume_len(const X&) {}
+template <size_t R, class T, size_t C> __attribute__((always_inline)) inline void assume_len(const nmtools::utl::static_vector<T,C>& x) { ASSUME((size_t)x.size() == R); }
 
 // trusted reader of element I (does not go through nmtools::at for std kinds)
 template <size_t I, class T, size_t N>
@@ -51,6 +63,11 @@ template <size_t I, class... Ts>
 __attribute__((always_inline)) inline decltype(auto) rd(const nmtools::utl::tuple<Ts...>& a) { return nmtools::utl::get<I>(a); }
 template <size_t I, class T, size_t N>
 __attribute__((always_inline)) inline const T& rd(const T (&a)[N]) { return a[I]; }
+template <size_t I, class T, size_t C>
+__attribute__((always_inline)) inline const T& rd(const nmtools::utl::static_vector<T,C>& a) { return a.data()[I]; }
+
+template <size_t I, class T, size_t N>
+__attribute__((always_inline)) inline const T& rd(const nmtools::array::hybrid_ndarray<T,N,1>& a) { return a.buffer_[I]; }
 
 template <class T> struct rank_of;
 template <class T, size_t N> struct rank_of<std::array<T,N>> : std::integral_constant<size_t,N> {};
@@ -62,5 +79,5 @@ template <class T> constexpr size_t rank_v = rank_of<std::remove_cv_t<std::remov
 // kind index for obligation ids (0 std::array, 1 utl::array, 2 std::tuple, 3 utl::tuple)
 template <class K> constexpr long kid = -1;
 template <> constexpr long kid<k_std> = 0; template <> constexpr long kid<k_utl> = 1;
-template <> constexpr long kid<k_tup> = 2; template <> constexpr long kid<k_utup> = 3;
+template <> constexpr long kid<k_tup> = 2; template <> constexpr long kid<k_utup> = 3; template <> constexpr long kid<k_sv> = 4; template <> constexpr long kid<k_svi> = 5;
 } // namespace ob
